@@ -136,6 +136,10 @@ def check_response(rec, iface, size, data, exp, method, ctype_expected=None):
     return v
 
 
+class Enough(Exception):
+    """enough failures collected: stop the enumeration (a broken tree can make every case slow)"""
+
+
 class Env:
     def __init__(self):
         self.dir = tempfile.mkdtemp(prefix="verif_c02_")
@@ -233,6 +237,8 @@ def bounded(tier, seed):
                         if v and len(failures) < 10:
                             failures.append({"inputs": {"iface": iface, "zerocopy": zc, "size": size, "chunk": c, "range": h,
                                                         "if_range": kind, "method": method}, "violated": v})
+                            if len(failures) >= 6:
+                                raise Enough()
                         elif len(samples) < 5 and exp[0] == "ranges" and len(exp[1]) > 1 and method == "GET":
                             samples.append({"iface": iface, "zerocopy": zc, "size": size, "chunk": c, "range": h,
                                             "status": str(rec["status"]), "body_len": len(rec["body"])})
@@ -262,6 +268,8 @@ def bounded(tier, seed):
                     if v and len(failures) < 10:
                         failures.append({"inputs": {"iface": iface, "zerocopy": zc, "size": size, "chunk": 4096, "range": h,
                                                     "if_range": "absent", "method": "GET"}, "violated": v})
+    except Enough:
+        pass
     finally:
         env.close()
     return {"evaluations": evals, "distinct_nontrivial": len(distinct), "failures": failures, "samples": samples,
